@@ -5,6 +5,7 @@ import CM.Proofs.ParseScanLkCoverRewrite
 import CM.Proofs.ParseAsmCoverEx
 import CM.Proofs.ParseAsmScanCovMain
 import CM.Proofs.ParseAsmScanCovStrip2
+import CM.Proofs.ParseAsmScanCovStrip3
 /-
 C03, inline half - "nothing lost": every letter, digit and non-ASCII byte of the unparsed runs handed to Rewrite is covered by a
 leaf of the result (20 proof files `InlCover*`: a fourth spec chain carrying the span invariant and a coverage frontier together;
@@ -58,5 +59,13 @@ theorem tokCov_code : type_of% @CM.Proofs.PSc.tokCov_code := @CM.Proofs.PSc.tokC
 theorem strip_keeps_coverage : type_of% @CM.Proofs.PSc.strip_result_cov := @CM.Proofs.PSc.strip_result_cov
 theorem parse_cover_of_parseTails_of_strip : type_of% @CM.Proofs.PSc.parse_cover_of_parseTails_of_strip :=
   @CM.Proofs.PSc.parse_cover_of_parseTails_of_strip
+
+/-- The strip step's specification is a theorem (hand-proved triple over the named parts of `stripCodeSpanSpace`), hence the code-span
+    coverage field holds for every container with content of every block-phase root; three fields (label, HTML tag, inline link)
+    remain in the reduction. -/
+theorem stripCodeSpanSpace_keeps_coverage : type_of% @CM.Proofs.PSc.stripCov := @CM.Proofs.PSc.stripCov
+theorem blockphase_code_coverage : type_of% @CM.Proofs.PSc.blockphase_code := @CM.Proofs.PSc.blockphase_code
+theorem parse_cover_of_parseTails_of_three : type_of% @CM.Proofs.PSc.parse_cover_of_parseTails_of_three :=
+  @CM.Proofs.PSc.parse_cover_of_parseTails_of_three
 
 end CM.Props.C03
